@@ -108,6 +108,11 @@ func (fr *Frame) chanRecv(c *blockCtx, ch Term, cond string, val Term, et types.
 		lg := g.getGhost(c.st, "$chrlogI", ch.S)
 		g.setGhost(c.st, "$chrlogI", ch.S, ite(cond, sto(lg.S, cur.S, val.S), lg.S))
 	}
+	if _, ok := g.W.ghosts["$chrlogR"]; ok && val.Sort == SRef {
+		// log of the references received from the channel, indexed by receive number
+		lg := g.getGhost(c.st, "$chrlogR", ch.S)
+		g.setGhost(c.st, "$chrlogR", ch.S, ite(cond, sto(lg.S, cur.S, val.S), lg.S))
+	}
 	g.setGhost(c.st, "$chrecvs", ch.S, ite(cond, "(+ "+cur.S+" 1)", cur.S))
 }
 
